@@ -63,10 +63,14 @@ pub fn run_check(id: &str, tier: Tier) -> i32 {
         }
         ctx.extra.insert("hook_and_command_disagree".into(), json!(e.0));
     }
-    for (g, hit) in &ctx.guards {
-        if !*hit {
-            return machinery(&format!("vacuity guard not met: {}", g));
+    let unmet: Vec<String> = ctx.guards.iter().filter(|(_, hit)| !**hit).map(|(g, _)| g.clone()).collect();
+    if !unmet.is_empty() {
+        if !ctx.capped {
+            return machinery(&format!("vacuity guard not met: {}", unmet[0]));
         }
+        // the wall cap of the tier ended the exploration early (reported as not exhaustive):
+        // what was not reached is listed, it is not a failure of the machinery
+        ctx.extra.insert("guards_not_reached_before_the_wall_cap".into(), json!(unmet));
     }
     match finish(&mut ctx) {
         Ok(code) => code,
